@@ -235,13 +235,119 @@ fn subs_for<B: Backend>(out: &mut Vec<SubCheck>) {
     }
 }
 
+
+// ---------------------------------------------------------------------------
+// other payload / footer types of the public API: Json<T>, RegisteredClaims, (), Json footers
+
+#[derive(Clone, Debug, Serialize, Deserialize)]
+pub struct TypedCase {
+    pub public: bool,
+    pub key: KeySeed,
+    /// 0: Json<Value> payload + () footer, 1: Json<Value> payload + Json<Value> footer,
+    /// 2: RegisteredClaims payload + Json<struct> footer, 3: Json<Value> payload + Vec<u8> footer
+    pub shape: u8,
+    pub text: String,
+    pub n: i64,
+    pub assertion: BytesSpec,
+}
+
+#[derive(Clone, Debug, Serialize, Deserialize, PartialEq)]
+struct Kid {
+    kid: String,
+    n: i64,
+}
+
+fn typed_roundtrip<B: Backend, P: Purpose, M, F>(c: &TypedCase, sealing: &Key<V<B>, P::SealingKey>, unsealing: &Key<V<B>, P>, m: impl Fn() -> M, f: impl Fn() -> F, same: impl Fn(&M, &F) -> bool) -> R
+where
+    V<B>: SealingVersion<P>,
+    M: paseto_core::encodings::Payload,
+    F: paseto_core::encodings::Footer,
+{
+    let name = B::NAME;
+    let purpose = if c.public { "public" } else { "local" };
+    let i = c.assertion.bytes();
+    let sealed = UnsealedToken::<V<B>, P, M>::new(m())
+        .with_footer(f())
+        .seal(sealing, &i)
+        .map_err(|e| Fail::new(format!("C01/{name}/{purpose}/typed/seal/err-{}", err_kind(&e)), format!("{e}")))?;
+    let s = sealed.to_string();
+    let parsed: SealedToken<V<B>, P, M, F> = s.parse().map_err(|e| Fail::new(format!("C01/{name}/{purpose}/typed/parse"), format!("own output does not parse: {e} ({s:.60})")))?;
+    ensure!(parsed.to_string() == s, format!("C01/{name}/{purpose}/typed/reserialise"), "parse -> to_string is not the identity");
+    let un = parsed
+        .unseal(unsealing, &i, &NoValidation::dangerous_no_validation())
+        .map_err(|e| Fail::new(format!("C01/{name}/{purpose}/typed/unseal/err-{}", err_kind(&e)), format!("{e}")))?;
+    ensure!(same(&un.claims, &un.footer), format!("C01/{name}/{purpose}/typed/claims-or-footer-differ"), "typed claims / footer differ after the round trip (shape {})", c.shape);
+    Ok(())
+}
+
+fn typed_case<B: Backend>(c: &TypedCase, acc: &mut Acc) -> R {
+    use paseto_json::{Json, RegisteredClaims};
+    rng::reseed_case(hash_of(&(&c.key, &c.text, c.n)));
+    let val = json!({"data": c.text, "n": c.n, "nested": {"list": [1, c.n, null, c.text]}});
+    let fval = json!({"kid": c.text, "n": c.n});
+    let claims = RegisteredClaims {
+        iss: Some(c.text.clone()),
+        sub: if c.n % 2 == 0 { Some(String::new()) } else { None },
+        aud: None,
+        exp: paseto_json::jiff::Timestamp::new(c.n.rem_euclid(4_000_000_000), (c.n.rem_euclid(1_000_000_000)) as i32).ok(),
+        nbf: None,
+        iat: paseto_json::jiff::Timestamp::new(0, 1).ok(),
+        jti: Some("\u{0}\"\\".to_string()),
+    };
+    macro_rules! go {
+        ($P:ty, $sk:expr, $uk:expr) => {
+            match c.shape % 4 {
+                0 => typed_roundtrip::<B, $P, Json<serde_json::Value>, ()>(c, &$sk, &$uk, || Json(val.clone()), || (), |a, _| a.0 == val),
+                1 => typed_roundtrip::<B, $P, Json<serde_json::Value>, Json<serde_json::Value>>(c, &$sk, &$uk, || Json(val.clone()), || Json(fval.clone()), |a, f| a.0 == val && f.0 == fval),
+                2 => typed_roundtrip::<B, $P, RegisteredClaims, Json<Kid>>(c, &$sk, &$uk, || claims.clone(), || Json(Kid { kid: c.text.clone(), n: c.n }), |a, f| {
+                    let b = &claims;
+                    a.iss == b.iss && a.sub == b.sub && a.aud == b.aud && a.exp == b.exp && a.nbf == b.nbf && a.iat == b.iat && a.jti == b.jti && f.0 == Kid { kid: c.text.clone(), n: c.n }
+                }),
+                _ => typed_roundtrip::<B, $P, Json<serde_json::Value>, Vec<u8>>(c, &$sk, &$uk, || Json(val.clone()), || c.text.as_bytes().to_vec(), |a, f| a.0 == val && f == c.text.as_bytes()),
+            }
+        };
+    }
+    let r = if c.public {
+        let sk = secret_key::<B>(&c.key);
+        let pk = sk.public_key();
+        go!(Public, sk, pk)
+    } else {
+        let k = local_key::<B>(&c.key);
+        go!(Local, k, k)
+    };
+    r?;
+    acc.eval();
+    acc.nt(hash_of(&(c.public, &c.key, c.shape % 4, &c.text, c.n)));
+    acc.class(["typed:Json+unit-footer", "typed:Json+Json-footer", "typed:RegisteredClaims+Json<struct>-footer", "typed:Json+bytes-footer"][(c.shape % 4) as usize]);
+    Ok(())
+}
+
+fn typed_subs_for<B: Backend>(out: &mut Vec<SubCheck>) {
+    let cases = match B::NAME {
+        "paseto-v1" => (80, 800),
+        "paseto-v3" => (120, 1500),
+        _ => (400, 8000),
+    };
+    out.push(SubCheck::prop(
+        format!("c01.typed/{}", B::NAME),
+        4,
+        cases,
+        |_t| {
+            (any::<bool>(), gen_::key_seed(), 0u8..4, prop_oneof![Just(String::new()), "\\PC{0,30}", any::<String>()], any::<i64>(), gen_::assertion(B::VER.has_assertion()))
+                .prop_map(|(public, key, shape, text, n, assertion)| TypedCase { public, key, shape, text, n, assertion })
+        },
+        typed_case::<B>,
+    ));
+}
+
 pub fn def() -> PropertyDef {
     let mut subs = Vec::new();
     crate::for_backends!(B => subs_for::<B>(&mut subs));
+    crate::for_backends!(B => typed_subs_for::<B>(&mut subs));
     PropertyDef {
         id: "C01",
         level: "exploration",
-        rule: "proptest cases (back end x purpose x key source x payload spec x footer x assertion x seal path {library RNG, scripted draw, caller nonce}); oracle = round-trip identity + spec payload length + re-serialisation; non-trivial iff payload longer than one cipher block, or non-empty footer or assertion, or a parsed (not random()) key; distinct by descriptor hash",
+        rule: "proptest cases (back end x purpose x key source x payload spec x footer x assertion x seal path {library RNG, scripted draw, caller nonce}); oracle = round-trip identity + spec payload length + re-serialisation; a second family of cases uses the typed payload / footer types of the public API (Json<Value>, RegisteredClaims, (), Json<Value> and Json<struct> footers); non-trivial iff payload longer than one cipher block, or non-empty footer or assertion, or a parsed (not random()) key; distinct by descriptor hash",
         assumptions: vec![
             "aws-lc and libsodium draw from their own OS-seeded generators (not scripted); rare signature shapes are reached by volume",
             "payload type is a raw-bytes Payload with SUFFIX \"\" (same header as JSON)",
